@@ -1,15 +1,29 @@
 ---------------------------- MODULE AggCacheOps ----------------------------
 (* The match cache of an aggregator as operators (no state): shared by the   *)
 (* state machine AggCache.tla and the trace specification MatcherTrace.tla.  *)
+(* What an aggregator answers for a metric name is a PAIR: whether the       *)
+(* filter accepts the name (m) and, if so, the output name the template      *)
+(* expands to (key).  The output name may well be the empty string (an empty *)
+(* or absent group, a reference to a group that does not exist): that says   *)
+(* nothing about m.                                                          *)
 EXTENDS Matcher
 
-\* -- operators shared with the trace specification (filter passed explicitly)
+\* the answer computed afresh for filter f, template t, name n
+FreshAns(f, t, n) == IF Accept(f, n) THEN [m |-> TRUE, key |-> OutKey(f, t, n)] ELSE [m |-> FALSE, key |-> <<>>]
+
+\* -- operators shared with the trace specification (filter and template passed explicitly)
+\* bug = "none": the specification; other values are named deviations that the invariants must reject
 Key(n, bug) == IF bug = "first_char" THEN SubSeq(n, 1, IF Len(n) > 0 THEN 1 ELSE 0) ELSE n
-Answer(f, ch, n, bug) == IF Key(n, bug) \in DOMAIN ch THEN ch[Key(n, bug)].m ELSE Accept(f, n)
-Remember(f, ch, n, t, bug) ==
-  [k \in DOMAIN ch \cup {Key(n, bug)} |-> IF k = Key(n, bug) THEN [m |-> Answer(f, ch, n, bug), seen |-> t] ELSE ch[k]]
-Stale(ch, t, wait) == {k \in DOMAIN ch : ch[k].seen < t - 100 * wait}
-Cleaned(ch, t, wait) == {[k \in DOMAIN ch \ S |-> ch[k]] : S \in SUBSET Stale(ch, t, wait)}
-Fresh(f, ch) == \A k \in DOMAIN ch : ch[k].m = Accept(f, k)
+\* what a cache entry e says
+Hit(e, bug) == IF bug = "empty_key_means_reject" THEN [m |-> e.key # <<>>, key |-> e.key]    \* "no output name = not accepted"
+               ELSE [m |-> e.m, key |-> e.key]
+Answer(f, t, ch, n, bug) == IF Key(n, bug) \in DOMAIN ch THEN Hit(ch[Key(n, bug)], bug) ELSE FreshAns(f, t, n)
+Remember(f, t, ch, n, now, bug) ==
+  LET a == Answer(f, t, ch, n, bug)
+  IN [k \in DOMAIN ch \cup {Key(n, bug)} |-> IF k = Key(n, bug) THEN [m |-> a.m, key |-> a.key, seen |-> now] ELSE ch[k]]
+Stale(ch, now, wait) == {k \in DOMAIN ch : ch[k].seen < now - 100 * wait}
+Cleaned(ch, now, wait) == {[k \in DOMAIN ch \ S |-> ch[k]] : S \in SUBSET Stale(ch, now, wait)}
+\* both components of every entry are what a fresh computation gives
+Fresh(f, t, ch) == \A k \in DOMAIN ch : [m |-> ch[k].m, key |-> ch[k].key] = FreshAns(f, t, k)
 
 =============================================================================
